@@ -125,4 +125,18 @@ func init() {
 		Assumptions: []string{"NotifyHealthCheckResult is a no-op", "latency of a successful probe 1ns..5s"},
 		QuickBudget: 8 * time.Minute, ThoroughBudget: 60 * time.Minute,
 	}
+	checks["C04"] = &CheckDef{
+		Pkgs:    []string{"./component/routing"},
+		Harness: []string{"component/routing:Verif_C04_routing", "component/routing:Verif_C04_domain", "component/routing:Verif_C04_dns"},
+		MaxIter: 400,
+		Level:   "other",
+		LevelText: "Rule lists of symbolic shape are passed through the real ApplyRulesOptimizers with the real AliasOptimizer, DatReaderOptimizer.Optimize (loader stubbed), MergeAndSortRulesOptimizer and DeduplicateParamsOptimizer - the traffic pipeline and the DNS pipelines (no alias). The meaning of the list before and after is evaluated on the AST as one SMT term each, over an arbitrary truth assignment of the atoms (canonical function, canonical key, value); the solver shows the two decisions (outbound including its parameters, or fallback) equal for every assignment.",
+		LevelNote: "Trusted: go/ssa, executor, z3, the first-match evaluator in the harness. geodata files are replaced by fixed expansions; mohae/deepcopy by the executor's structural copy; atoms are free booleans (the link from atoms to packets is C01/C07/C11/C12). Shapes bounded per tier.",
+		Technique: techniqueText,
+		Explanation: "Bounded symbolic execution of the rule optimizers against AST-level meaning under all atom valuations.",
+		Bounds:  map[string]string{"quick": "shapes: two neighbouring single-condition rules with <=2 values each | a two-condition rule followed by a single-condition rule; functions dip/ip/sip, domain (+dip), qname (+dip); negation symbolic; keys '', domain, suffix, contains, keyword, full, geosite/geoip; outbound spellings proxy / proxy(mark:1) / direct", "thorough": "adds three single-condition rules in a row"},
+		Outside: []string{"geodata file decoding", "SplitRequestRules", "rules with more than two conditions / values"},
+		Assumptions: []string{"geosite/geoip codes expand to fixed lists", "deep copy is structural"},
+		QuickBudget: 8 * time.Minute, ThoroughBudget: 60 * time.Minute,
+	}
 }
